@@ -37,7 +37,7 @@ def tsan_reports(outdir):
                 continue
             kind = m.group(1).strip().replace(" ", "-")
             fns = []
-            for fm in re.finditer(r"#\d+ ([^\n]+?) (/repo/[^\s:]+):(\d+)", blk):
+            for fm in re.finditer(r"#\d+ ([^\n]+?) (%s[^\s:]+):(\d+)" % re.escape(build.REPO.rstrip("/") + "/"), blk):
                 fn = re.sub(r"\(.*", "", fm.group(1)).strip().split("::")[-1]
                 if fn not in fns:
                     fns.append(fn)
